@@ -77,7 +77,10 @@ def gen_string(rng):
         for _ in range(rng.randrange(2, 10)):
             line = "".join(rng.choice("abc xyz]=[") for _ in range(rng.randrange(0, 14)))
             lines.append(line)
-        s = "\n".join(lines)
+        # line breaks of every kind: a reader normalises CR / CR LF inside long brackets, so a
+        # writer must not put such a text in long-bracket form
+        sep = rng.choice(["\n", "\n", "\n", "\r\n", "\r", "\n\r", "\n\t", "\n\x0c"])
+        s = sep.join(lines)
         s += rng.choice(["", "]", "]=", "]]", "]==", "\n"])
         if rng.randrange(4) == 0:
             s = "\n" + s
@@ -87,6 +90,9 @@ def gen_string(rng):
     if k == 10:                     # 60+ printable bytes on one line (long bracket by length)
         n = rng.randrange(58, 70)
         s = "".join(rng.choice("abcdefghij ]=[") for _ in range(n))
+        if rng.randrange(4) == 0:
+            at = rng.randrange(len(s))
+            s = s[:at] + rng.choice(["\r\n", "\r", "\t", "\x0c"]) + s[at:]
         return s + rng.choice(["", "]", "]=", "]]"])
     if k == 11:                     # identifier-like
         return rng.choice("abcXYZ_") + "".join(rng.choice("abcXYZ_019") for _ in range(rng.randrange(0, 8)))
